@@ -15,7 +15,7 @@
 //!   clause of IsVariableUsageAllowed / AreTypesCompatible for lists, allowed and not.
 //!
 //! As everywhere, the verdict is the reference validator's, never derived from the mutator.
-use super::rules::pick;
+use super::rules::{pick, sel_at};
 use super::*;
 use std::collections::BTreeMap;
 
@@ -134,14 +134,16 @@ fn merge_copy(m: &mut M, break_one: bool) -> bool {
         second.reverse();
     }
     let n = m.doc.defs.len();
-    let mut f1 = simple_field(m.c, m.s, &g1, Some(format!("zc{}", n)));
+    // aliases not used by an earlier application
+    let k = m.sites.fields.iter().filter(|f| matches!(sel_at(m.doc, &f.path), Selection::Field(x) if x.alias.as_deref().map_or(false, |a| a.starts_with("zc")))).count();
+    let mut f1 = simple_field(m.c, m.s, &g1, Some(format!("zc{}", k)));
     f1.selection_set = first;
     let mut f2 = if g2.name == g1.name {
         f1.clone()
     } else {
         simple_field(m.c, m.s, &g2, None)
     };
-    f2.alias = Some(format!("zd{}", n));
+    f2.alias = Some(format!("zd{}", k));
     f2.selection_set = second;
     let own_operation = st2.path.idx.is_empty() && matches!(m.doc.defs[st2.path.def], Definition::Operation(_)) && m.c.bool(90);
     set_mut(m.doc, &st1.path).push(Selection::Field(f1));
